@@ -34,8 +34,12 @@ THEOREMS = [
     "TDV.Node.buffered_lawful_partial",
     "TDV.Node.prebatchMapper_lawful",
     "TDV.Node.built_lawful",
+    # the Loader layer on top of a Lawful root (model TDV.Loader, proved in Props/C13.lean)
+    "TDV.Loader.resume_exact",
+    "TDV.Loader.resume_exact_obs",
+    "TDV.Loader.resume_exact_end",
 ]
-LEAN_MODULES = ["TorchDataVerif.Props.C02"]
+LEAN_MODULES = ["TorchDataVerif.Props.C02", "TorchDataVerif.Props.C13"]
 RULE = ("pipelines as in C04 (leaf under 0..4 operators, lengths 0..7, None/0/empty-list items). K-D cases: random op lists "
         "with state_dict / reset(state) / fresh-object ops, errors included. K-O cases: pipelines that never raise; every epoch "
         "e in {0,1} and every k in 0..len(epoch)+1 (len+1 = after StopIteration was observed) is one case; chains add every "
@@ -270,6 +274,9 @@ def escalate(ctx: Ctx):
 
 def replay(ctx: Ctx, payload) -> Tuple[bool, str]:
     kind, inp = payload["kind"], payload["input"]
+    if kind == "loader_history":
+        from . import c13
+        return c13.replay(ctx, payload)
     if kind == "resume_point":
         return check_point(inp["pipe"], inp["e"], inp["k"], inp.get("j"))
     if kind == "pipeline_ops":
